@@ -84,6 +84,10 @@ type Op struct {
 	// context right after the stub has returned, as `defer cancel()` does
 	CancelAfter bool
 	PadKB      int     // payload padding in KiB (flow-control scenarios)
+	// FreezeClock (no-send-waiting one-way call, first op of the only thread): from the invocation
+	// until the stub returns the driver does not advance the clock; if the system goes idle before
+	// the stub has returned, the call waits for a timer (i.e. for the connection)
+	FreezeClock bool
 	// get / wait: index of an earlier call op in the same thread
 	Ref int
 	// close: number of concurrent Close invocations (1 or 2)
@@ -93,6 +97,9 @@ type Op struct {
 // PerNodeSpec describes a per-node argument function.
 type PerNodeSpec struct {
 	Skip     []int // server indices for which f returns nil
+	// Empty: server indices for which f returns a valid message whose fields are all default
+	// (zero size on the wire) - a message all the same, not "no message" (C06 profile, one-way stubs)
+	Empty []int
 	Distinct bool  // distinct payload per node
 }
 
